@@ -206,10 +206,14 @@ func extNondetInt(e *Exec, _ *frame, _ token.Pos, _ *ssa.Function, args []Value)
 		return lo
 	}
 	v := e.newVar(name, 64)
+	e.ts.ClearVarRange(v)
 	c := e.ts.And(e.ts.Cmp(OpSLe, lo, v), e.ts.Cmp(OpSLe, v, hi))
 	if lo.IsConst() && hi.IsConst() {
 		if lo.SVal() > hi.SVal() {
 			panic(pathEnd{"empty nondet range"})
+		}
+		if lo.SVal() >= 0 {
+			defer e.ts.SetVarRange(v, lo.val, hi.val)
 		}
 		e.assertPC(c) // fresh variable, non-empty constant range: always satisfiable
 	} else {
